@@ -8,6 +8,7 @@ package utils
 //vf:job C02 quick VF_C02_BigKey t=0..13 n=1
 //vf:job C02 quick VF_C02_BigKey t=0..6 n=2
 //vf:job C02 quick VF_C02_BigKey t=11..12 n=2
+//vf:job C02 quick VF_C02_BigKey t=14..15 n=1
 //vf:job C02 thorough VF_C02_BigKey t=7..10 n=2
 //vf:job C02 thorough VF_C02_BigKey t=13 n=2
 //vf:job C02 quick VF_C02_BigKey t=2 n=2 exp=0,2
@@ -199,8 +200,8 @@ func vfBuild(t, n int) (byte, []byte, vfLogical) {
 		}
 		for i := 0; i < n; i++ {
 			e := el("e", i)
-			if t == 3 && i == 1 {
-				e = []byte("zz") // distinct from the 1-byte first member
+			if t == 3 {
+				e = append([]byte{byte('a' + i)}, e...) // set members are pairwise distinct
 			}
 			raw = append(raw, vfRdbStr(e)...)
 			lg.elems = append(lg.elems, e)
@@ -298,7 +299,9 @@ func vfBuild(t, n int) (byte, []byte, vfLogical) {
 			v := int64(int16(vfUint16("iv")))
 			if i > 0 {
 				v = int64(int8(vfByte("iv8")))
-				vfAssume(v != vals[0])
+				for _, o := range vals {
+					vfAssume(v != o) // set members are pairwise distinct
+				}
 			}
 			vals = append(vals, v)
 			lg.elems = append(lg.elems, []byte(strconv.FormatInt(v, 10)))
@@ -340,6 +343,30 @@ func vfBuild(t, n int) (byte, []byte, vfLogical) {
 			lg.elems = append(lg.elems, []byte(strconv.FormatInt(int64(v), 10)))
 		}
 		return rdb.RdbTypeList, raw, lg
+	case 14, 15: // wide ziplist integers (24, 32 and 64 bit) in a ziplist list / a quicklist node
+		var ents []vfZLEntry
+		lg := vfLogical{kind: "list"}
+		for i := 0; i < n; i++ {
+			var b vfZLEntry
+			switch vfPick("wenc", 3) {
+			case 0:
+				b = vfZLInt(int64(int32(vfUint32("i24")))>>8, 3)
+			case 1:
+				v := int32(vfUint32("i32"))
+				vfAssume(vfOr(vfAnd(v >= -130, v <= 130), vfOr(v >= 2147483640, v <= -2147483640)))
+				b = vfZLInt(int64(v), 4)
+			default:
+				v := vfInt64("i64")
+				vfAssume(vfOr(vfAnd(v >= -130, v <= 130), vfOr(v >= 9223372036854775800, v <= -9223372036854775800)))
+				b = vfZLInt(v, 5)
+			}
+			ents = append(ents, b)
+			lg.elems = append(lg.elems, b.logical())
+		}
+		if t == 14 {
+			return rdb.RdbTypeListZiplist, vfRdbStr(vfZiplist(ents)), lg
+		}
+		return rdb.RdbTypeQuicklist, append(vfRdbLen(1), vfRdbStr(vfZiplist(ents))...), lg
 	}
 	return 0, nil, vfLogical{}
 }
